@@ -53,7 +53,7 @@ def spec_seq(draw, tier):
     n = draw(st.integers(4, 25))
     ops = []
     for k in range(n):
-        o = draw(st.sampled_from(["addvar", "addvar", "addbias", "addbias", "addbias", "delbias", "delbias", "delvar", "step", "step", "step",
+        o = draw(st.sampled_from(["addvar", "addvar", "addbias", "addbias", "addbias", "delbias", "delbias", "delbiases", "delvar", "step", "step", "step",
                                   "step", "reset"] if k > 2 else ["addvar", "addbias"]))
         ops.append({"op": o, "kind": draw(st.sampled_from(VAR_KINDS if o == "addvar" else BIAS_KINDS)), "pick": draw(st.integers(0, 50)),
                     "pick2": draw(st.integers(0, 50)), "k": rnd(draw(fl(0.5, 5)), 2), "c": rnd(draw(fl(-1, 4)), 2)})
@@ -138,6 +138,12 @@ def plan(spec):
             b = live_b.pop(o["pick"] % len(live_b))
             doomed.add(b[0])
             out.append({"op": "delbias", "name": b[0]})
+        elif op == "delbiases":
+            # every bias goes: the variables stay, with nothing acting on them
+            for b in live_b:
+                doomed.add(b[0])
+                out.append({"op": "delbias", "name": b[0]})
+            live_b = []
         elif op == "delvar":
             if not live_v:
                 continue
@@ -163,8 +169,9 @@ def plan(spec):
 def build(spec, ops, skip=()):
     L = cvz.header(NAT, 1, temperature=300.0)
     t = 0
-    for o in ops:
+    for io, o in enumerate(ops):
         op = o["op"]
+        L.append("echo op%d" % io)
         if op in ("addvar", "addbias"):
             if o["name"] in skip:
                 continue
@@ -188,6 +195,7 @@ def build(spec, ops, skip=()):
             t += 1
         L.append("atoms")
         L.append("deps")
+        L.append("depsdump")
     return "\n".join(L) + "\n"
 
 
@@ -234,7 +242,16 @@ def check_seq(spec, ctx, variant="rel"):
     shared_deletion = False
     steps_after_delete = 0
     deleted_any = False
-    for o in ops:
+    def dumps_by_op(r):
+        out, cur = {}, None
+        for rec in r.recs:
+            if rec.get("t") == "echo":
+                cur = int(rec["token"][2:])
+            elif rec.get("t") == "depsdump" and cur is not None:
+                out[cur] = rec["dump"]
+        return out
+    dumpA, dumpB = dumps_by_op(rA), dumps_by_op(rB)
+    for iop, o in enumerate(ops):
         op = o["op"]
         if op == "addvar":
             live_v[o["name"]] = set(o["atoms"])
@@ -303,6 +320,11 @@ def check_seq(spec, ctx, variant="rel"):
                 if a["E"] != b["E"]:
                     return Outcome(False, msg="step %d: engine energy %r, but %r had the deleted objects never existed" % (a["it"], a["E"], b["E"]),
                                    sig="identity_energy", case_text=full)
+                for c in a["cv"]:
+                    cb = cvB.get(c["name"])
+                    if cb is not None and c["f"] != cb["f"]:
+                        return Outcome(False, msg="step %d: force applied to surviving variable %s is %r, but %r had the deleted objects never existed" %
+                                       (a["it"], c["name"], c["f"], cb["f"]), sig="identity_applied_force", case_text=full)
                 FA, FB = atom_forces(a), atom_forces(b)
                 if FA != FB:
                     diff = [(k, FA.get(k), FB.get(k)) for k in sorted(set(FA) | set(FB)) if FA.get(k) != FB.get(k)][:3]
